@@ -159,8 +159,15 @@ def impl_init():
 
     def fp(pkt, db):
         try:
-            with U.options_as(len(bytes(pkt)), database=db) as kw:
-                r = fingerprint_mtu(pkt, **kw)
+            style = len(bytes(pkt))
+            arg = pkt
+            if (style // 3) % 2:
+                try:
+                    arg = parse_packet(pkt)                  # both accepted argument types: the Scapy packet or the parsed Packet
+                except PacketError:
+                    arg = pkt
+            with U.options_as(style, database=db) as kw:
+                r = fingerprint_mtu(arg, **kw)
             return {"ok": [r.packet_signature.mtu, None if r.match is None else r.match.line_number]}
         except PacketError:
             return {"err": "PacketError"}
